@@ -1,0 +1,7 @@
+//go:build !verif
+
+package mtproto
+
+// verifYield marks a step boundary of the client for the verification harness.
+// Without the build tag `verif` it does nothing.
+func verifYield(point string, id int64) {}
